@@ -6,7 +6,7 @@
    lookup times, ANY contents of the legacy registry and of cloud control, and ANY schedule.
    The scripts may contain the environment event "the clock passes the counter key's deadline" (OResetCounter) anywhere.
    Variant proved: the repaired removal path (removeMappingKeys), an atomic Incr, and the repaired generateMappingID
-   (the counter key is created without a deadline before Incr, so it can never vanish), index entry removed before the record, a failed repository read ends the lookup; the pinned DeleteMapping, the
+   (the counter key is created without a deadline before Incr, so it can never vanish), index entry removed before the record, a failed repository read ends the lookup, updates compare the client id; the pinned DeleteMapping, the
    former get-then-set Incr of hybrid.Storage and the pinned generateMappingID (counter with the 24 h default TTL) are
    refuted below.
    Ghost log: EvClaim n i c  = SetNX on the index of n succeeded for mapping i of client c;
@@ -22,7 +22,7 @@ Local Open Scope N_scope.
 Theorem C19_single_owner :
   forall (reg cloud : name -> option pmap) (ts : list thr) (sched : list nat),
   (forall t, In t ts -> fresh_thr t) ->
-  let s := drun true true true true true reg cloud empty_store ts sched in
+  let s := drun true true true true true true reg cloud empty_store ts sched in
   (forall n, idx (fst s) n = holder n (log (fst s))) /\
   (forall l1 l2 n i c, log (fst s) = l1 ++ EvClaim n i c :: l2 -> holder n l2 = None) /\
   (forall l1 l2 n i c, log (fst s) = l1 ++ EvRelease n i c :: l2 -> holder n l2 = Some i /\ In (EvClaim n i c) l2) /\
@@ -37,7 +37,7 @@ Print Assumptions C19_single_owner.
 Theorem C19_routes_to_owner_or_rejects :
   forall (reg cloud : name -> option pmap) (ts : list thr) (sched : list nat),
   (forall t, In t ts -> fresh_thr t) ->
-  let s := drun true true true true true reg cloud empty_store ts sched in
+  let s := drun true true true true true true reg cloud empty_store ts sched in
   forall t h i c tg, In t (snd s) -> In (RRouted 1 h i c tg) (out t) ->
   In (EvClaim (extractDomain h) i c) (log (fst s)) /\ In (EvWrite i c tg) (log (fst s)) /\
   (forall n' c', In (EvClaim n' i c') (log (fst s)) -> n' = extractDomain h /\ c' = c).
@@ -49,7 +49,7 @@ Print Assumptions C19_routes_to_owner_or_rejects.
 Theorem C19_lookup_at_any_time :
   forall (reg cloud : name -> option pmap) (ts : list thr) (sched : list nat),
   (forall t, In t ts -> fresh_thr t) ->
-  let s := drun true true true true true reg cloud empty_store ts sched in
+  let s := drun true true true true true true reg cloud empty_store ts sched in
   forall h now h' i c tg, lookup_now reg cloud (fst s) h now = RRouted 1 h' i c tg ->
   h' = h /\ holder (extractDomain h) (log (fst s)) = Some i /\
   In (EvClaim (extractDomain h) i c) (log (fst s)) /\ In (EvWrite i c tg) (log (fst s)) /\
@@ -68,7 +68,7 @@ Print Assumptions C19_lookup_at_any_time.
    Host resolves to: C19_lookup_second_read_is_for_the_resolved_name.) *)
 Theorem C19_routed_answer_reads_active_record :
   forall (reg cloud : name -> option pmap) t s t' a h i c tg,
-  decide true true true true true reg cloud t s = (t', a) -> out t' = RRouted 1 h i c tg :: out t ->
+  decide true true true true true true reg cloud t s = (t', a) -> out t' = RRouted 1 h i c tg :: out t ->
   exists m n now, pc t = PCLRec h n i now /\ recs s i = Some m /\ is_active m now = true /\
                   c = r_client m /\ tg = r_target m.
 Proof. exact routed_only_from_active. Qed.
@@ -76,7 +76,7 @@ Print Assumptions C19_routed_answer_reads_active_record.
 
 Theorem C19_legacy_sources_answer_only_unowned_names :
   forall (reg cloud : name -> option pmap) t s t' a src h i c tg,
-  decide true true true true true reg cloud t s = (t', a) -> out t' = RRouted src h i c tg :: out t -> src <> 1 ->
+  decide true true true true true true reg cloud t s = (t', a) -> out t' = RRouted src h i c tg :: out t -> src <> 1 ->
   exists n now,
     fst (next_fault t) = false /\
     ((pc t = Idle /\ n = extractDomain h /\ idx s n = None) \/ (exists j, pc t = PCLRec h n j now /\ recs s j = None)) /\
@@ -90,17 +90,30 @@ Theorem C19_faulted_lookup_is_rejected :
   forall (reg cloud : name -> option pmap) t s fs,
   next_fault t = (true, fs) ->
   ((exists h now rest, pc t = Idle /\ ops t = OLookup h now :: rest) \/ (exists h n i now, pc t = PCLRec h n i now)) ->
-  dstep true true true true true reg cloud t s = (finish t fs (RErr EStorage), s).
+  dstep true true true true true true reg cloud t s = (finish t fs (RErr EStorage), s).
 Proof. exact faulted_lookup_rejected. Qed.
 Print Assumptions C19_faulted_lookup_is_rejected.
 
 Theorem C19_lookup_second_read_is_for_the_resolved_name :
   forall (reg cloud : name -> option pmap) (ts : list thr) (sched : list nat),
   (forall t, In t ts -> fresh_thr t) ->
-  let s := drun true true true true true reg cloud empty_store ts sched in
+  let s := drun true true true true true true reg cloud empty_store ts sched in
   forall t h n j now, In t (snd s) -> pc t = PCLRec h n j now -> n = extractDomain h.
 Proof. intros reg cloud ts sched H s t h n j now. exact (reach_lookup_pc reg cloud ts sched H t h n j now). Qed.
 Print Assumptions C19_lookup_second_read_is_for_the_resolved_name.
+
+(* (2''') an update never changes the owner.  A repository-level UpdateMapping whose payload carries a client id (or a name) other
+   than the stored record's is refused and leaves the store untouched — in ANY state, for ANY payload; hence in every reachable
+   state the record behind a mapping id keeps naming the client that claimed it (the invariant under C19_routes_to_owner_or_rejects
+   and C19_lookup_at_any_time; their scripts may contain such forged updates).  The variant without the client_id comparison is
+   refuted below. *)
+Theorem C19_update_never_changes_owner :
+  forall (reg cloud : name -> option pmap) t s i n c st ex tgt m fs,
+  pc t = PCUFGet i n c st ex tgt -> next_fault t = (false, fs) -> recs s i = Some m ->
+  (c <> r_client m \/ n <> r_name m) ->
+  dstep true true true true true true reg cloud t s = (finish t fs (RErr EInvalidReq), s).
+Proof. exact update_cannot_change_owner. Qed.
+Print Assumptions C19_update_never_changes_owner.
 
 (* (3) only the owner deletes: a DeleteMapping by a client that does not own the record is refused and leaves the
    store untouched (in any state); releases are performed by the claimant (clause 3 of C19_single_owner). *)
@@ -108,7 +121,7 @@ Theorem C19_only_owner_deletes :
   forall (reg cloud : name -> option pmap) t s r rest m fs,
   pc t = Idle -> ops t = ODelete r :: rest -> next_fault t = (false, fs) ->
   recs s (resolve t r) = Some m -> r_client m <> cl t ->
-  dstep true true true true true reg cloud t s = (finish t fs (RErr EForbidden), s).
+  dstep true true true true true true reg cloud t s = (finish t fs (RErr EForbidden), s).
 Proof. exact foreign_delete_refused. Qed.
 Print Assumptions C19_only_owner_deletes.
 
@@ -120,7 +133,7 @@ Print Assumptions C19_only_owner_deletes.
 Theorem C19_real_clients_only :
   forall (reg cloud : name -> option pmap) (ts : list thr) (sched : list nat),
   (forall t, In t ts -> fresh_thr t) ->
-  let s := drun true true true true true reg cloud empty_store ts sched in
+  let s := drun true true true true true true reg cloud empty_store ts sched in
   (forall n i c, In (EvClaim n i c) (log (fst s)) -> (0 < c)%Z) /\
   (forall n i c, In (EvRelease n i c) (log (fst s)) -> (0 < c)%Z) /\
   (forall i r, recs (fst s) i = Some r -> (0 < r_client r)%Z).
@@ -130,18 +143,18 @@ Print Assumptions C19_real_clients_only.
 Theorem C19_unbound_caller_cannot_delete :
   forall (reg cloud : name -> option pmap) (ts : list thr) (sched : list nat),
   (forall t, In t ts -> fresh_thr t) ->
-  let s := drun true true true true true reg cloud empty_store ts sched in
+  let s := drun true true true true true true reg cloud empty_store ts sched in
   forall t r rest m fs,
   pc t = Idle -> ops t = ODelete r :: rest -> next_fault t = (false, fs) ->
   recs (fst s) (resolve t r) = Some m -> (cl t <= 0)%Z ->
-  dstep true true true true true reg cloud t (fst s) = (finish t fs (RErr EForbidden), fst s).
+  dstep true true true true true true reg cloud t (fst s) = (finish t fs (RErr EForbidden), fst s).
 Proof. intros reg cloud ts sched H s t r rest m fs. exact (reach_unbound_delete_refused reg cloud ts sched H t r rest m fs). Qed.
 Print Assumptions C19_unbound_caller_cannot_delete.
 
 Theorem C19_unbound_caller_cannot_create :
   forall (reg cloud : name -> option pmap) t s sub base tgt fs,
   pc t = PCIncr sub base tgt -> next_fault t = (false, fs) -> (cl t <= 0)%Z ->
-  dstep true true true true true reg cloud t s = (finish t fs (RErr EValidation), exec (AIncr (cl t) (full_domain sub base)) s).
+  dstep true true true true true true reg cloud t s = (finish t fs (RErr EValidation), exec (AIncr (cl t) (full_domain sub base)) s).
 Proof. exact unbound_create_refused. Qed.
 Print Assumptions C19_unbound_caller_cannot_create.
 
@@ -151,14 +164,14 @@ Print Assumptions C19_unbound_caller_cannot_create.
 Theorem C19_cleanup_only_removes_expired :
   forall (reg cloud : name -> option pmap) t s now i rest acc m fs,
   pc t = PCClScan now (i :: rest) acc -> next_fault t = (false, fs) -> recs s i = Some m -> is_expired m now = false ->
-  dstep true true true true true reg cloud t s = (cl_scan_next t fs now rest acc, s).
+  dstep true true true true true true reg cloud t s = (cl_scan_next t fs now rest acc, s).
 Proof. exact cleanup_skips_unexpired. Qed.
 Print Assumptions C19_cleanup_only_removes_expired.
 
 Theorem C19_cleanup_acts_as_owner :
   forall (reg cloud : name -> option pmap) t s i c rest cnt m fs,
   pc t = PCClDGet ((i, c) :: rest) cnt -> next_fault t = (false, fs) -> recs s i = Some m -> r_client m <> c ->
-  dstep true true true true true reg cloud t s = (cl_del t fs rest cnt, s).
+  dstep true true true true true true reg cloud t s = (cl_del t fs rest cnt, s).
 Proof. exact cleanup_acts_as_owner. Qed.
 Print Assumptions C19_cleanup_acts_as_owner.
 
@@ -168,13 +181,13 @@ Print Assumptions C19_cleanup_acts_as_owner.
 Theorem C19_deleted_stops_routing_and_is_reclaimable :
   forall (reg cloud : name -> option pmap) (ts : list thr) (sched : list nat),
   (forall t, In t ts -> fresh_thr t) ->
-  let s := drun true true true true true reg cloud empty_store ts sched in
+  let s := drun true true true true true true reg cloud empty_store ts sched in
   forall n i c l, log (fst s) = EvRelease n i c :: l ->
   In (EvClaim n i c) l /\
   idx (fst s) n = None /\
   (forall h now h' i' c' tg, extractDomain h = n -> lookup_now reg cloud (fst s) h now <> RRouted 1 h' i' c' tg) /\
   (forall t i' tgt fs, pc t = PCSetNX i' n tgt -> next_fault t = (false, fs) ->
-     decide true true true true true reg cloud t (fst s) = (goto t fs (PCSetRec i' n tgt), AClaim n i' (cl t))).
+     decide true true true true true true reg cloud t (fst s) = (goto t fs (PCSetRec i' n tgt), AClaim n i' (cl t))).
 Proof. intros reg cloud ts sched H s n i c l. exact (deleted_stops_routing_and_is_reclaimable reg cloud ts sched H n i c l). Qed.
 Print Assumptions C19_deleted_stops_routing_and_is_reclaimable.
 
@@ -225,7 +238,7 @@ Print Assumptions C19_failed_delete_retry_completes.
 Theorem C19_inactive_or_expired_rejected :
   forall (reg cloud : name -> option pmap) t s h n i now m fs,
   pc t = PCLRec h n i now -> next_fault t = (false, fs) -> recs s i = Some m -> is_active m now = false ->
-  dstep true true true true true reg cloud t s = (finish t fs (RErr (if is_expired m now then EForbidden else EUnavailable)), s).
+  dstep true true true true true true reg cloud t s = (finish t fs (RErr (if is_expired m now then EForbidden else EUnavailable)), s).
 Proof. exact inactive_or_expired_step. Qed.
 Print Assumptions C19_inactive_or_expired_rejected.
 
@@ -303,7 +316,7 @@ Print Assumptions C19_registry_registered_name_refused.
 (* pinned DeleteMapping (unconditional index delete): a repeated delete of mapping 1 racing a re-claim removes the
    NEW owner's index entry — client 2's create succeeded, its mapping 2 was never deleted, yet the name has no owner. *)
 Theorem C19_pinned_delete_reclaim_refuted :
-  let s := drun false true false true true none_legacy none_legacy empty_store race_threads race_sched_pinned in
+  let s := drun false true false true true true none_legacy none_legacy empty_store race_threads race_sched_pinned in
   map out (snd s) = [[RDeleted; RCreated 1]; [RDeleted]; [RCreated 2]; [RErr ENotFound]] /\
   recs (fst s) 2 = Some {| r_name := host_a; r_client := 2; r_target := 22; r_status := StActive; r_exp := 0 |} /\
   idx (fst s) host_a = None /\
@@ -314,7 +327,7 @@ Print Assumptions C19_pinned_delete_reclaim_refuted.
 (* Incr as get-then-set (hybrid.Storage.Incr before d88dca0): two creates of different names draw the same id, the later record
    overwrites the earlier, and the first name — claimed by client 1 — routes to client 2's target. *)
 Theorem C19_nonatomic_incr_refuted :
-  let s := drun true false false true true none_legacy none_legacy empty_store dup_threads dup_sched in
+  let s := drun true false false true true true none_legacy none_legacy empty_store dup_threads dup_sched in
   map out (snd s) = [[RCreated 1]; [RCreated 1]; [RRouted 1 host_a 1 2 22]] /\
   In (EvClaim host_a 1 1) (log (fst s)).
 Proof. exact nonatomic_incr_refuted. Qed.
@@ -323,7 +336,7 @@ Print Assumptions C19_nonatomic_incr_refuted.
 (* pinned generateMappingID: the counter is created by IncrBy with the 24 h default data TTL and never refreshed; once the
    clock passes it the key disappears and ids start again at 1 while the old record and index are still there. *)
 Theorem C19_counter_reset_refuted :
-  let s := drun true true false true true none_legacy none_legacy empty_store reset_threads reset_sched in
+  let s := drun true true false true true true none_legacy none_legacy empty_store reset_threads reset_sched in
   map out (snd s) = [[RCreated 1]; [RReset]; [RCreated 1]; [RRouted 1 host_a 1 2 22]] /\
   In (EvClaim host_a 1 1) (log (fst s)).
 Proof. exact counter_reset_refuted. Qed.
@@ -333,7 +346,7 @@ Print Assumptions C19_counter_reset_refuted.
    the first name keeps routing to its owner (the general statement is C19_routes_to_owner_or_rejects, whose scripts
    may contain the clock event) *)
 Theorem C19_counter_deadline_harmless :
-  let s := drun true true true true true none_legacy none_legacy empty_store reset_threads reset_sched_fixed in
+  let s := drun true true true true true true none_legacy none_legacy empty_store reset_threads reset_sched_fixed in
   map out (snd s) = [[RCreated 1]; [RReset]; [RCreated 2]; [RRouted 1 host_a 1 1 11]] /\
   cttl (fst s) = false /\ next (fst s) = 2.
 Proof. exact counter_reset_harmless_run. Qed.
@@ -343,7 +356,7 @@ Print Assumptions C19_counter_deadline_harmless.
 Theorem C19_counter_never_expires :
   forall (reg cloud : name -> option pmap) (ts : list thr) (sched : list nat),
   (forall t, In t ts -> fresh_thr t) ->
-  cttl (fst (drun true true true true true reg cloud empty_store ts sched)) = false.
+  cttl (fst (drun true true true true true true reg cloud empty_store ts sched)) = false.
 Proof. intros reg cloud ts sched H. exact (reach_counter_no_deadline reg cloud ts sched H). Qed.
 Print Assumptions C19_counter_never_expires.
 
@@ -351,7 +364,7 @@ Print Assumptions C19_counter_never_expires.
    4th call of the removal) leaves the index entry without record; the owner's retry finds no record and reports success,
    yet the index still holds the name — client 2's claim is refused, forever. *)
 Theorem C19_record_before_index_refuted :
-  let s := drun true true true false true none_legacy none_legacy empty_store (fault_threads 3) fault_sched in
+  let s := drun true true true false true true none_legacy none_legacy empty_store (fault_threads 3) fault_sched in
   map out (snd s) = [[RDeleted; RErr EStorage; RCreated 1]; [RErr EExists]; [RErr ENotFound]] /\
   idx (fst s) host_a = Some 1 /\ recs (fst s) 1 = None.
 Proof. exact record_before_index_refuted. Qed.
@@ -359,7 +372,7 @@ Print Assumptions C19_record_before_index_refuted.
 
 (* the code's order, same callers, same fault position: the retry finishes the delete and client 2 gets the name *)
 Theorem C19_index_before_record_run :
-  let s := drun true true true true true none_legacy none_legacy empty_store (fault_threads 3) fault_sched in
+  let s := drun true true true true true true none_legacy none_legacy empty_store (fault_threads 3) fault_sched in
   map out (snd s) = [[RDeleted; RErr EStorage; RCreated 1]; [RCreated 2]; [RRouted 1 host_a 2 2 22]] /\
   idx (fst s) host_a = Some 2 /\ recs (fst s) 1 = None.
 Proof. exact index_before_record_run. Qed.
@@ -385,13 +398,13 @@ Print Assumptions C19_registry_one_section_run.
    client 1, the legacy registry holds an entry for it owned by client 7; with the index read failing, and again with the record
    read failing, the request is routed to client 7. *)
 Theorem C19_fallthrough_on_error_refuted :
-  let s := drun true true true true false legacy_reg legacy_cloud empty_store faulted_lookup_threads (repeat 0 5 ++ repeat 1 3)%nat in
+  let s := drun true true true true false true legacy_reg legacy_cloud empty_store faulted_lookup_threads (repeat 0 5 ++ repeat 1 3)%nat in
   map out (snd s) = [[RCreated 1]; [RRouted 2 host_a 72 7 702; RRouted 2 host_a 72 7 702]].
 Proof. exact fallthrough_on_error_refuted. Qed.
 Print Assumptions C19_fallthrough_on_error_refuted.
 
 Theorem C19_error_stops_lookup_run :
-  let s := drun true true true true true legacy_reg legacy_cloud empty_store faulted_lookup_threads (repeat 0 5 ++ repeat 1 3)%nat in
+  let s := drun true true true true true true legacy_reg legacy_cloud empty_store faulted_lookup_threads (repeat 0 5 ++ repeat 1 3)%nat in
   map out (snd s) = [[RCreated 1]; [RErr EStorage; RErr EStorage]].
 Proof. exact error_stops_lookup_run. Qed.
 Print Assumptions C19_error_stops_lookup_run.
@@ -399,7 +412,7 @@ Print Assumptions C19_error_stops_lookup_run.
 (* the production create path (adapter: CreateMapping, then UpdateMapping with the expiry): after the expiry a request is
    rejected, the sweep reclaims the name, another client claims it and is routed *)
 Theorem C19_adapter_expiry_run :
-  let s := drun true true true true true none_legacy none_legacy empty_store adapter_threads
+  let s := drun true true true true true true none_legacy none_legacy empty_store adapter_threads
                 (repeat 0 7 ++ repeat 1 14 ++ repeat 2 7 ++ repeat 3 2)%nat in
   map out (snd s) = [[RUpdated; RCreated 1]; [RCleaned 1; RErr EForbidden; RRouted 1 host_a 1 1 11];
                      [RUpdated; RCreated 2]; [RRouted 1 host_a 2 2 22]].
@@ -418,11 +431,25 @@ Print Assumptions C19_nonpositive_never_expires_refuted.
    another client claims it and is routed *)
 Theorem C19_negative_expiry_run :
   (adapter_expiry 5 max_int64 < 0)%Z /\
-  let s := drun true true true true true none_legacy none_legacy empty_store wrapped_threads
+  let s := drun true true true true true true none_legacy none_legacy empty_store wrapped_threads
                 (repeat 0 7 ++ repeat 1 12 ++ repeat 2 5 ++ repeat 3 2)%nat in
   map out (snd s) = [[RUpdated; RCreated 1]; [RCleaned 1; RErr EForbidden]; [RCreated 2]; [RRouted 1 host_a 2 2 22]].
 Proof. exact negative_expiry_run. Qed.
 Print Assumptions C19_negative_expiry_run.
+
+(* UpdateMapping comparing only the name fields (client_id not compared): caller 2 sends client 1's record back with client_id 2 and
+   its own target; the update is accepted, "a.t.io" routes to client 2's target and its owner's delete is refused. *)
+Theorem C19_update_without_client_check_refuted :
+  let s := drun true true true true true false none_legacy none_legacy empty_store forged_threads forged_sched in
+  map out (snd s) = [[RCreated 1]; [RUpdated]; [RRouted 1 host_a 1 2 66]; [RErr EForbidden]].
+Proof. exact update_without_client_check_refuted. Qed.
+Print Assumptions C19_update_without_client_check_refuted.
+
+Theorem C19_update_with_client_check_run :
+  let s := drun true true true true true true none_legacy none_legacy empty_store forged_threads forged_sched in
+  map out (snd s) = [[RCreated 1]; [RErr EInvalidReq]; [RRouted 1 host_a 1 1 11]; [RDeleted]].
+Proof. exact update_with_client_check_run. Qed.
+Print Assumptions C19_update_with_client_check_run.
 
 (* ---- non-vacuity ------------------------------------------------------------------------------------------------ *)
 
@@ -435,7 +462,7 @@ Print Assumptions C19_premises_satisfiable.
 (* a history with the cleanup and with callers 0 and -1: the cleanup removes exactly client 1's expired mapping; the
    unbound callers' deletes of client 2's mapping are refused, their create is refused, client 2 keeps its name *)
 Theorem C19_cleanup_and_unbound_callers_run :
-  let s := drun true true true true true none_legacy none_legacy empty_store cleanup_threads cleanup_sched in
+  let s := drun true true true true true true none_legacy none_legacy empty_store cleanup_threads cleanup_sched in
   map out (snd s) = [[RUpdated; RCreated 1]; [RCreated 2]; [RErr EValidation; RCleaned 1; RErr EForbidden];
                      [RDeleted; RErr EForbidden]; [RRouted 1 (full_domain nm_b nm_base) 2 2 22; RErr ENotFound]] /\
   idx (fst s) host_a = None /\ idx (fst s) (full_domain nm_b nm_base) = Some 2 /\ recs (fst s) 1 = None /\
@@ -445,14 +472,14 @@ Print Assumptions C19_cleanup_and_unbound_callers_run.
 
 (* the three lookup sources in one history (repository, registry, cloud control) *)
 Theorem C19_three_sources_run :
-  let s := drun true true true true true legacy_reg legacy_cloud empty_store sources_threads (repeat 0 12 ++ repeat 1 6)%nat in
+  let s := drun true true true true true true legacy_reg legacy_cloud empty_store sources_threads (repeat 0 12 ++ repeat 1 6)%nat in
   map out (snd s) = [[RErr EUnavailable; RUpdated; RRouted 1 host_a_port 1 1 11; RCreated 1];
                      [RErr ENotFound; RErr EForbidden; RRouted 2 (full_domain nm_b nm_base ++ [58; 56; 48]) 71 7 701]].
 Proof. exact three_sources_run. Qed.
 Print Assumptions C19_three_sources_run.
 
 Theorem C19_repaired_run :
-  let s := drun true true true true true none_legacy none_legacy empty_store race_threads race_sched_fixed in
+  let s := drun true true true true true true none_legacy none_legacy empty_store race_threads race_sched_fixed in
   map out (snd s) = [[RDeleted; RCreated 1]; [RDeleted]; [RCreated 2]; [RRouted 1 host_a_port 2 2 22]] /\
   idx (fst s) host_a = Some 2 /\
   stale_release (log (fst s)) = false.
